@@ -207,14 +207,20 @@ EXPORT errno_t _wcsfc_s_chk(wchar_t *restrict dest, rsize_t dmax,
 #endif
                     d = _decomp_s(tmpd, 8, cp1, false);
                     if (d) { /* decomp. max 4 */
+                        if (unlikely(dmax < (rsize_t)d))
+                            goto too_small;
                         memcpy(dest, tmpd, d * sizeof(wchar_t));
                         dest += d;
                         dmax -= d;
                     } else {
+                        if (unlikely(dmax < 2))
+                            goto too_small;
                         _ENC_W16(dest, dmax, cp1);
                     }
                 }
             } else {
+                if (unlikely(dmax < (rsize_t)c))
+                    goto too_small;
                 memcpy(dest, tmp, c * sizeof(wchar_t));
                 dest += c;
                 dmax -= c;
@@ -242,6 +248,8 @@ EXPORT errno_t _wcsfc_s_chk(wchar_t *restrict dest, rsize_t dmax,
             } else if (unlikely(is_lithuanian)) {
                 /* I-Dot/J-Dot for Lithuanian, I-Dot for Turkish and Azeri.
                    http://unicode.org/reports/tr21/tr21-5.html#SpecialCasing */
+                if (unlikely(dmax < 3))
+                    goto too_small;
                 switch (*src) {
                 case 0xcc:
                     *dest++ = 0x69;
